@@ -57,28 +57,39 @@ def decode_length(ctx, rep):
                       b.loc(st["line"]), sample={"mode": vn, "n_interval": list(iv) if iv else None})
             rep.check("R4.1", "%s:upper-bound" % vn, iv is not None and hi is not None and iv[1] <= hi,
                       "Mode::%s: announced length up to %s exceeds the mode maximum %s" % (vn, iv[1] if iv else "?", hi), b.loc(st["line"]))
-            # n's definition on this variant's path
+            # n's definition on this variant's path, compared bit by bit with first_byte << (0 | 2) computed in usize
+            import bits
             o = b.origin(st["rv"]["ops"][0])
-            desc = []
+            exprs = []
             if o[0] == "phi":
                 for d in b.defs().get(o[1], []):
                     if d[0] == "stmt" and d[1] in an.reachable():
                         rv = d[3]["rv"]
                         if rv["k"] == "cast":
-                            desc.append(("cast", rv["from"], rv["to"], fmt_origin(b.origin(rv["x"]))))
+                            exprs.append(("cast", rv["kind"], rv["from"], rv["to"], b.origin(rv["x"])))
                         elif rv["k"] == "use":
-                            oo = b.origin(rv["x"])
-                            desc.append(("use", fmt_origin(oo)))
+                            exprs.append(b.origin(rv["x"]))
+                        elif rv["k"] == "bin":
+                            exprs.append(("bin", rv["op"], b.origin(rv["l"]), b.origin(rv["r"]), rv.get("lty")))
                         else:
-                            desc.append((rv["k"],))
-            okv = False
-            if hi == 255:
-                okv = len(desc) == 1 and desc[0][0] == "cast" and desc[0][1] == "u8" and "first(" in desc[0][3]
-            elif hi == 1020:
-                # (first as usize) MulWithOverflow 4, field 0
-                okv = len(desc) == 1 and desc[0][0] == "use" and re.search(r"first\(.*\) as Some\.0 as usize\) MulWithOverflow 4\)", desc[0][1]) is not None
-            rep.check("R4.1", "%s:value" % vn, okv, "Mode::%s: announced length must be first byte x %d (found %s)" % (vn, 1 if hi == 255 else 4, desc), b.loc(st["line"]),
-                      sample={"mode": vn, "definition": [list(d) for d in desc]})
+                            exprs.append(("rv", rv["k"]))
+            else:
+                exprs = [o]
+
+            def leaf(x):
+                # the first byte of the buffer: `*src.first()?` / src[0]
+                y = x
+                while y[0] in ("deref", "ref"):
+                    y = y[1]
+                if y[0] == "field" and y[1][0] == "downcast" and y[1][3] == "Some" and y[1][1][0] == "call" and y[1][1][1].endswith("first"):
+                    return ("first", 8)
+                return None
+            shift = 0 if hi == 255 else 2
+            expect = [("f", "first", i - shift) if 0 <= i - shift < 8 else 0 for i in range(64)]
+            got_bits = [bits.evaluate(e, 64, leaf) for e in exprs]
+            okv = len(got_bits) == 1 and got_bits[0] == expect
+            rep.check("R4.1", "%s:value" % vn, okv, "Mode::%s: the announced length must be the first byte x %d computed without losing bits; %s gives %s" % (vn, 1 << shift, [fmt_origin(e) for e in exprs], [str(x) for x in (got_bits[0][:12] if got_bits else [])]),
+                      b.loc(st["line"]), sample={"mode": vn, "definition": [fmt_origin(e) for e in exprs]})
         # the accepting row demands src.len() >= n
         vrows = [r for r in rows if r[1][1] == "Ok" and r[1][2] and r[1][2][0].startswith("Some{") and ("discr(*arg1)", "eq", (vi,)) in [(c[1], c[2], c[3]) for c in r[0]]]
         okc = False
